@@ -104,24 +104,41 @@ CHECKS["C20"] = dict(
           "order of volatile asm, predicate scope across asm statements); gl64_device::W keeps its initialiser."))
 
 CHECKS["C06"] = dict(
-    text=("PARTIAL. The three permutations (scalar, AVX2, two-state AVX512) and all constant tables are regenerated into Lean "
-          "from the current source on every run (the 22 partial rounds as a fold over a lifted loop body). Proved (Props/C06.lean): "
-          "hash = first four elements of the full result in all three backends; the table side conditions the vector code relies on "
-          "(all round constants canonical, M_ entries < 2^8, M_/P_ are the transposes of M/P, index bounds of S and C). NOT yet "
-          "proved: den∘backend = spec∘den for all 2^768 states; that equality is established by executing the generated models "
-          "against the compiled functions and against an independent Python reference on boundary-valued states (incl. the suite's "
-          "known-answer inputs), which also is the failing-input search. The lane-level ingredients are theorems (C01,C02,C11,C13,C14)."),
-    technique="Lean 4: translated model + kernel-checked table side conditions; backend=spec by correspondence (partial proof)",
-    design="§4 C06", note=NOTE_BASE)
+    text=("Machine-checked theorems (Props/C06.lean): the three permutations (scalar hash_full_result_seq, AVX2 hash_full_result, "
+          "two-state AVX512 hash_full_result_avx512) and all constant tables are regenerated into Lean from the current source on "
+          "every run (the 22 partial rounds as a fold over a lifted loop body); for ALL 2^768 states in ANY representation each "
+          "backend's output, read in ZMod p, equals the Poseidon specification Model/PoseidonSpec.lean (add C; 4 full rounds; 22 "
+          "partial rounds with the sparse matrices S; 4 full rounds; x^7 S-box; MDS), words outside the state are untouched, the "
+          "backends agree, hash = first four elements; table side conditions (canonical constants, M_ < 2^8, transposes) by "
+          "decide +kernel over the generated tables. Tie: regeneration + execution of the generated models against the compiled "
+          "functions and an independent Python reference (incl. the suite's known-answer inputs) + an in-process backend-agreement "
+          "search (failing-input search, 1.6M states quick, 64M when an obligation is broken)."),
+    technique="Lean 4 proof (ZMod p) that the translated permutation code of all three backends equals the Poseidon spec + CPU correspondence",
+    design="§4 C06", note=NOTE_BASE + " The specification PoseidonSpec.lean is hand-written from the reference description; its agreement with "
+                               "the published Poseidon-Goldilocks instance is validated by the known-answer vectors only.")
 CHECKS["C07"] = dict(
-    text=("Machine-checked theorem (Props/C07.lean): for EVERY permutation and EVERY input length the loop model of linear_hash "
+    text=("Machine-checked theorems (Props/C07.lean): for EVERY permutation and EVERY input length the loop model of linear_hash "
           "(remaining counter, capacity feedback, zero padding; Model/Sponge.lean) equals the rate-8/capacity-4 sponge specification, "
-          "and inputs of at most four elements pass through zero-padded; digest length; variant agreement. PARTIAL for the "
-          "two-at-a-time AVX512 variant (pass-through proved, interleaved loop by correspondence). Tie: correspondence of the models "
-          "(instantiated with the translated permutations) with linear_hash_seq / linear_hash / linear_hash_avx512 for every length "
-          "0..40, 63..65, 127..129 (thorough: 0..300, 1000) with exact-size redzoned inputs."),
+          "inputs of at most four elements pass through zero-padded; digest length; variant agreement; and the two-at-a-time AVX512 "
+          "variant equals the sponge on each of its two interleaved inputs (C07_avx512, C07_avx512_is_sponge). Tie: correspondence "
+          "of the models (instantiated with the translated permutations) with linear_hash_seq / linear_hash / linear_hash_avx512 for "
+          "every length 0..40, 63..65, 127..129 (thorough: 0..300, 1000), each call in a forked child with the input ending at a "
+          "PROT_NONE guard page so that reads beyond the declared length fault."),
     technique="Lean 4 proof by induction over the block loop of a hand-written model, generic in the permutation + correspondence",
     design="§4 C07", note=NOTE_BASE)
+CHECKS["C17"] = dict(
+    text=("Machine-checked theorems: (1) Props/C17Gen.lean, GENERATED on every run — for each of the 160 copy/add/sub/mul "
+          "_batch/_avx/_avx512 overloads a structural equality between the body translated from the current source and "
+          "'lane kernel applied to the operands the parameters designate, written lane 0 first to the positions the output "
+          "parameters designate', the designation being derived from the C++ SIGNATURE (types and names: offset_a/b/c, offsets1/2, "
+          "stride, stride_dst); valid for EVERY stride and index array (0, colliding and wrapping included) and every operand "
+          "value; (2) Props/C17.lean — frame condition (nothing else written), value of each designated position at field level "
+          "through the kernel theorems of C01/C02/C11, set/load/store; (3) parcpy/parSetZero transfer exactly size elements for "
+          "every size, every int thread count (<= 0 included) and every execution order of the chunks (hand model "
+          "Model/ParCopy.lean). Tie: bodies regenerated from the source; correspondence of every overload (implementation vs "
+          "generated model vs signature-derived oracle) with exact-extent arrays against PROT_NONE guard pages."),
+    technique="Lean 4 proof, statements generated from C++ signatures and bodies translated from the source (clang AST) + CPU correspondence",
+    design="§4 C17", note=NOTE_BASE + " Distinct pointer arguments are modelled as disjoint regions (argument aliasing not covered); parcpy is a hand model.")
 CHECKS["C08"] = dict(
     text=("Machine-checked theorems (Props/C08.lean) about the Merkle model (leaf digests, then level by level the hashes of adjacent "
           "digest pairs), generic in leaf and node hash: for every power-of-two row count incl. one the buffer size equals the "
